@@ -283,6 +283,21 @@ func (b *BloomSearchEngine) Stop(ctx context.Context) error {
 	// flushCtx live.
 	stopAfter := context.AfterFunc(ctx, b.flushCancel)
 
+	// AfterFunc only promises that the callback runs at some point after ctx
+	// is done — a Context implementation with its own AfterFunc hook may run
+	// it arbitrarily late — but the abort has to be armed the moment the
+	// deadline passes, or Stop cannot honor it (and queued flushes keep
+	// starting store work after Stop has returned). Watch ctx.Done directly.
+	stopWatch := make(chan struct{})
+	defer close(stopWatch)
+	go func() {
+		select {
+		case <-ctx.Done():
+			b.flushCancel()
+		case <-stopWatch:
+		}
+	}()
+
 	b.stateMu.Lock()
 	if !b.started && !b.stopped {
 		// Never started: IngestRows and Flush still accept work (it is
@@ -315,7 +330,10 @@ func (b *BloomSearchEngine) Stop(ctx context.Context) error {
 		stopAfter()
 		return nil
 	case <-ctx.Done():
-		// Timeout occurred
+		// Timeout occurred. Cancel the flush context before returning so that
+		// no queued flush can start store work after Stop has reported the
+		// deadline (idempotent with the watchers above).
+		b.flushCancel()
 		return fmt.Errorf("shutdown timeout exceeded: %w", ctx.Err())
 	}
 }
